@@ -73,6 +73,12 @@ pub trait Space<VM: VMBinding>: 'static + SFT + Sync + Downcast {
 
         trace!("Reserving pages");
         let pr = self.get_page_resource();
+        #[cfg(feature = "mmtk_verif")]
+        crate::verif::gc::ev(
+            crate::verif::gc::Kind::PrReserve,
+            crate::verif::gc::space_tag(self.get_name(), pages),
+            0,
+        );
         let pages_reserved = pr.reserve_pages(pages);
         trace!("Pages reserved");
 
@@ -132,8 +138,26 @@ pub trait Space<VM: VMBinding>: 'static + SFT + Sync + Downcast {
         let lock = self.common().acquire_lock.lock().unwrap();
 
         let Ok(res) = pr.get_new_pages(self.common().descriptor, pages_reserved, pages, tls) else {
+            #[cfg(feature = "mmtk_verif")]
+            crate::verif::gc::ev(
+                crate::verif::gc::Kind::PrGetNewPagesFail,
+                crate::verif::gc::space_tag(self.get_name(), pages),
+                pages_reserved,
+            );
             return None;
         };
+        #[cfg(feature = "mmtk_verif")]
+        crate::verif::gc::ev(
+            crate::verif::gc::Kind::PrCommit,
+            crate::verif::gc::space_tag(self.get_name(), pages_reserved),
+            res.pages,
+        );
+        #[cfg(feature = "mmtk_verif")]
+        crate::verif::gc::ev(
+            crate::verif::gc::Kind::PrGetNewPages,
+            crate::verif::gc::space_tag(self.get_name(), res.pages),
+            res.start.as_usize(),
+        );
 
         debug!(
             "Got new pages {} ({} pages) for {} in chunk {}, new_chunk? {}",
@@ -250,6 +274,12 @@ pub trait Space<VM: VMBinding>: 'static + SFT + Sync + Downcast {
         );
 
         // Clear the request
+        #[cfg(feature = "mmtk_verif")]
+        crate::verif::gc::ev(
+            crate::verif::gc::Kind::PrClearRequest,
+            crate::verif::gc::space_tag(self.get_name(), pages_reserved),
+            attempted_allocation_and_failed as usize,
+        );
         pr.clear_request(pages_reserved);
 
         // If we are not at a safepoint, return immediately.
